@@ -2559,9 +2559,15 @@ class Env(cabc.MutableMapping):
         # thread that has either builds its own mapping.
         cacheable = not self._overlay_stack and not self._d._local
         if self._detyped is not None and cacheable:
-            return self._detyped
-        ctx = {}
-        items = dict(self._d)
+            # Containers can be edited in place through a reference the
+            # caller kept (``p = $PATH; ...; p.append(x)``), which nothing
+            # reports to the cache: only these entries are built again.
+            ctx = self._detyped
+            mutable = cabc.MutableSet | cabc.MutableSequence | cabc.MutableMapping
+            items = {k: v for k, v in self._d.items() if isinstance(v, mutable)}
+        else:
+            ctx = {}
+            items = dict(self._d)
         # Apply overlay values on top (most recent overlay wins)
         for overlay in self._overlay_stack:
             items.update(overlay)
@@ -2582,6 +2588,7 @@ class Env(cabc.MutableMapping):
                 raise RuntimeError(f"Error during detyping ${key}: {exc}") from exc
             if deval is None:
                 # cannot be detyped
+                ctx.pop(key, None)
                 continue
             ctx[key] = deval
         if cacheable:
